@@ -1237,3 +1237,7 @@ mod tests {
         );
     }
 }
+
+#[cfg(kani)]
+#[path = "/verif/kani/arrow-string/substring.rs"]
+mod verif_kani;
